@@ -265,6 +265,54 @@ def evalAll (v : Variant) (attr : Toks) (item : Item) (input : Toks) (m : Outcom
       " ".intercalate (rows.map PropRow.show) ++ s!" stable={b3 stable} idok={b3 item.identsOk} F={",".intercalate fs} BO={",".intercalate bo}"
   | _, _ => ""
 
+/-! ### macro-owned inert attributes
+
+  A harmless change may put attributes *of the macro's own* on what it generates (`#[inline]` on delegating
+  methods, `#[automatically_derived]` on impls, `#[allow(..)]`, generated docs).  The properties speak about the
+  attributes the *user* wrote; the correspondence is therefore taken up to inert built-in attributes that the
+  macro demonstrably adds by itself: the driver lists every such attribute found on a real generated item together
+  with whether the user wrote the same attribute anywhere in the input (`XA=`); an attribute seen on some case
+  whose input does not contain it is the macro's own (decided over the whole run, tools/runner.py), and a second
+  pass removes exactly those from the real items (`stripOwned`).  A *copy* of a user's attribute never qualifies:
+  it only ever appears where the input has it. -/
+
+def inertAttr (a : Attr) : Bool :=
+  match a.inner.head? with
+  | some (.ident s) => ["inline", "automatically_derived", "allow", "must_use", "cold", "doc"].contains s
+  | _ => false
+
+def userAttrs (item : Item) : List Attr :=
+  item.attrs ++ item.sourceFns.flatMap (·.attrs) ++
+  (match item with | .trait t => t.fns.flatMap (·.attrs) | _ => [])
+
+def genItemAttrs : GenItem → List Attr
+  | .trait t => t.attrs ++ t.members.flatMap GenMember.attrs
+  | .impl im => im.attrs ++ im.members.flatMap GenMember.attrs
+  | .raw _ => []
+
+def stripMember (owned : List Toks) : GenMember → GenMember
+  | .fn as s b => .fn (as.filter (fun a => !owned.contains a.inner)) s b
+  | m => m
+
+def stripItem (owned : List Toks) : GenItem → GenItem
+  | .trait t => .trait { t with attrs := t.attrs.filter (fun a => !owned.contains a.inner), members := t.members.map (stripMember owned) }
+  | .impl im => .impl { im with attrs := im.attrs.filter (fun a => !owned.contains a.inner), members := im.members.map (stripMember owned) }
+  | x => x
+
+def stripOwned (owned : List Toks) (r : Real) : Real :=
+  if owned.isEmpty then r else
+  match r with
+  | .ok toks rout => .ok toks { rout with inside := rout.inside.map (stripItem owned), after := rout.after.map (stripItem owned) }
+  | x => x
+
+/-- inert attributes on the real generated items, each with: did the user write the same attribute in the input? -/
+def inertOnGenerated (item : Item) (r : Real) : List (Attr × Bool) :=
+  match r with
+  | .ok _ rout =>
+      let ua := userAttrs item
+      ((rout.inside ++ rout.after).flatMap genItemAttrs).filter inertAttr |>.map (fun a => (a, ua.contains a))
+  | _ => []
+
 def hexDigit (n : Nat) : Char := if n < 10 then Char.ofNat (48 + n) else Char.ofNat (87 + n)
 def hexOf (s : String) : String :=
   String.ofList (s.toUTF8.toList.flatMap (fun b => [hexDigit (b.toNat / 16), hexDigit (b.toNat % 16)]))
